@@ -16,10 +16,13 @@ fn subtag_cases(out: &mut Vec<Value>, mac: &str, kind: SubtagKind, pool: &[&str]
     let mut bads = 0;
     // fixed boundary cases first
     let fixed: &[&str] = match kind {
-        SubtagKind::Language => &["en", "EN", "und", "UND", "Und", "abc", "abcde", "abcdefgh", "abcd", "a", "abcdefghi", "e1", "", "en-US", "\u{e9}n", "en "],
-        SubtagKind::Script => &["Latn", "latn", "LATN", "lat", "latin", "l4tn", "", "Lat\u{f1}"],
-        SubtagKind::Region => &["US", "us", "001", "999", "USA", "u", "01", "0001", "u1", ""],
-        SubtagKind::Variant => &["macos", "MACOS", "1996", "1abc", "abcd", "valencia", "12345678", "123456789", "abc", "a1b2c", "1ab", "12_45", ""],
+        // (the last entries of each list: a well-formed subtag repeated, followed or preceded by a separator, or
+        // followed by another well-formed subtag - text that a macro which routes its literal through the identifier
+        // parser, with its sorting and de-duplication, may take for a single subtag)
+        SubtagKind::Language => &["en", "EN", "und", "UND", "Und", "abc", "abcde", "abcdefgh", "abcd", "a", "abcdefghi", "e1", "", "en-US", "\u{e9}n", "en ", "en-en", "en_EN", "en-", "-en", "und-und"],
+        SubtagKind::Script => &["Latn", "latn", "LATN", "lat", "latin", "l4tn", "", "Lat\u{f1}", "Latn-Latn", "latn_LATN", "Latn-", "und-Latn", "Latn-US"],
+        SubtagKind::Region => &["US", "us", "001", "999", "USA", "u", "01", "0001", "u1", "", "419", "US-US", "us_US", "US-", "und-US", "001-001", "US-macos"],
+        SubtagKind::Variant => &["macos", "MACOS", "1996", "1abc", "abcd", "valencia", "12345678", "123456789", "abc", "a1b2c", "1ab", "12_45", "", "macos-macos", "1996_1996", "MacOS-macos", "macos-", "und-macos", "macos-1996", "1996-macos"],
     };
     for s in fixed {
         let ok = subtag_expect(kind, s.as_bytes()).is_some();
